@@ -79,11 +79,11 @@ fn gen(rng: &mut Rng, tier: &str) -> Vec<(String, Value)> {
         cases.push(case("boundary.len", "bytes", json!(hex(&b)), &[1]));
         cases.push(case("boundary.len", "opt_bytes", json!(hex(&b)), &[]));
     }
-    let big_bytes: &[usize] = if tier == "thorough" { &[65535, 65536, 65537, 131072, 131073, 200000] } else { &[65535, 65536, 65537, 131073] };
+    let big_bytes: &[usize] = if tier == "thorough" { &[65535, 65536, 65537, 131072, 131073, 200000] } else { &[65536, 65537, 131073] };
     for &n in big_bytes {
         let b: Vec<u8> = (0..n).map(|i| (i * 7 + n) as u8).collect();
         big.push(case("boundary.chunk", "bytes", json!(hex(&b)), &[1]));
-        if n == 65537 || tier == "thorough" { big.push(case("boundary.chunk", "opt_bytes", json!(hex(&b)), &[])); }
+        if tier == "thorough" { big.push(case("boundary.chunk", "opt_bytes", json!(hex(&b)), &[])); }
     }
     for n in [14usize, 255, 256] {
         cases.push(case("boundary.len", "rsync", json!(uri_of_len("rsync", n)), &[]));
@@ -91,9 +91,9 @@ fn gen(rng: &mut Rng, tier: &str) -> Vec<(String, Value)> {
         cases.push(case("boundary.len", "opt_https", json!(uri_of_len("https", n)), &[0]));
     }
     big.push(case("boundary.chunk", "rsync", json!(uri_of_len("rsync", 65537)), &[]));
-    big.push(case("boundary.chunk", "https", json!(uri_of_len("https", 65536)), &[]));
-    big.push(case("boundary.chunk", "opt_https", json!(uri_of_len("https", 65537)), &[0]));
+    big.push(case("boundary.chunk", "opt_https", json!(uri_of_len("https", 65536)), &[0]));
     if tier == "thorough" {
+        big.push(case("boundary.chunk", "https", json!(uri_of_len("https", 65537)), &[]));
         big.push(case("boundary.chunk", "rsync", json!(uri_of_len("rsync", 65536)), &[]));
         big.push(case("boundary.chunk", "https", json!(uri_of_len("https", 70000)), &[]));
     }
@@ -110,7 +110,7 @@ fn gen(rng: &mut Rng, tier: &str) -> Vec<(String, Value)> {
     cases.push(case("boundary", "map", json!([]), &[]));
     cases.push(case("boundary", "map", json!([[0, h32(0)]]), &[]));
     cases.push(case("boundary", "map", json!([[0, h32(1)], [1u64 << 63, h32(2)], [u64::MAX - 1, h32(3)], [u64::MAX, h32(4)]]), &[5]));
-    for n in [17u64, 300] {
+    for n in [17u64, if tier == "thorough" { 300 } else { 100 }] {
         let mut r = rng.fork();
         let m: Vec<Value> = (0..n).map(|i| json!([1000 + i, hex(&gen_bytes(&mut r, 32))])).collect();
         cases.push(case("boundary.many", "map", json!(m.clone()), &[]));
@@ -126,7 +126,7 @@ fn gen(rng: &mut Rng, tier: &str) -> Vec<(String, Value)> {
         big.push(case("boundary.chunk", "manifest", json!({
             "not_after": 1800000000, "manifest_number": hex(&gen_serial(&mut r)), "this_update": 1700000000,
             "ca_repository": "rsync://h/m/ca/", "manifest": big_content, "crl_uri": "rsync://h/m/ca/x.crl", "crl": "3000"}), &[]));
-        big.push(case("boundary.chunk", "object", json!({"uri": "rsync://h/m/ca/x.roa", "hash": h32(9), "content": hex(&(0..66000usize).map(|i| (i * 5) as u8).collect::<Vec<u8>>())}), &[]));
+        if tier == "thorough" { big.push(case("boundary.chunk", "object", json!({"uri": "rsync://h/m/ca/x.roa", "hash": h32(9), "content": hex(&(0..66000usize).map(|i| (i * 5) as u8).collect::<Vec<u8>>())}), &[])); }
     }
     // (c) structured random values of every kind
     let n = if tier == "thorough" { 400 } else { 60 };
